@@ -16,6 +16,11 @@ correspondence: dataclass TYPES generated at run time (dataclasses.make_dataclas
                 State bytes (_serialize_state_bytes / _resolve_state_cls / _deserialize_state_bytes, single and union) vs
                 `run_state_case`, once in this process (msgpack absent: Arrow path) and once in a subprocess where a
                 pure-Python stand-in for msgpack (harness/stubs_C03) enables the compact codec.
+                Decode SEQUENCES (oracle only; the model's values are immutable and a default_factory yields a fresh value
+                on every decode): classes with Transient fields whose default_factory is list / dict / set; decode, mutate
+                the decoded instance's transient fields in place, decode again (Arrow, compact, state-bytes paths): every
+                decode equals the original incl. a fresh transient default, compact == Arrow, no two instances share a
+                mutable transient object.
 
 Readings adopted
   * "equal instance": same class, every field equal; floats by bit pattern (NaN payloads included), frozensets and dicts
@@ -310,6 +315,8 @@ def run(ctx: Any) -> None:
         ctx.violation(v["key"], v["what"], {**v["replay"], "via": "_serialize_state_bytes/_deserialize_state_bytes", "msgpack": here["have_msgpack"]})
     ctx.count("impl_runs", here["stats"]["state_cases"])
     ctx.count("state_cases_without_msgpack", here["stats"]["state_cases"])
+    ctx.count("transient_mutation_sequences_without_msgpack", here["stats"].get("transient_sequences", 0))
+    ctx.count("impl_runs", here["stats"].get("transient_decodes", 0))
     for _ in here["cases"]:
         ctx.case(["state", len(ctx.distinct)], nontrivial=True)
 
@@ -332,12 +339,14 @@ def run(ctx: Any) -> None:
         for v in sub["violations"]:
             ctx.violation(v["key"], v["what"], {**v["replay"], "via": "_serialize_state_bytes/_deserialize_state_bytes", "msgpack": "stand-in " + sub.get("msgpack", "")})
         st = sub["stats"]
-        ctx.count("impl_runs", st["state_cases"])
+        ctx.count("impl_runs", st["state_cases"] + st.get("transient_decodes", 0))
         ctx.count("state_cases_with_msgpack_standin", st["state_cases"])
         ctx.count("compact_codec_used", st["compact_used"])
         for _ in sub["cases"]:
             ctx.case(["state-msgpack", len(ctx.distinct)], nontrivial=True)
-        ctx.obligation("coverage:compact-codec-exercised", "environment", st["compact_used"] > 0 and st["arrow_used"] > 0, json.dumps(st))
+        ctx.count("transient_mutation_sequences_with_msgpack_standin", st.get("transient_sequences", 0))
+        ctx.obligation("coverage:compact-codec-exercised", "environment",
+                       st["compact_used"] > 0 and st["arrow_used"] > 0 and st.get("transient_sequences_compact", 0) > 0, json.dumps(st))
 
     # ---- 4. the model on the same cases ---------------------------------------------------------------------------------
     header = HEADER + gen.coq_header() + "\n"
